@@ -176,7 +176,8 @@ Proof. exact label_percents_list. Qed.
 (* The number of cells the code flips is int(n * p) computed in DOUBLES; its value k is an oracle answer (the size asked of
    np.random.choice).  [kflip_spec n p k]: k is floor(n p), except that a product within 1e-9 of an integer may round to the
    other side (then |k - floor(n p)| <= 1); k = floor(n p) whenever p has at most 20 fractional bits or n p is not within
-   1e-9 of an integer.  [cum] selects the slice variant of unique_per_label (false: as first read, true: repaired). *)
+   1e-9 of an integer.  [cum] selects the slice variant of unique_per_label: true = the code (cumulative offsets, fix 501d3c0), the only reading the
+   check accepts; false = the slices as first read, kept for C20_noise_slices_prefix_refuted. *)
 
 (* categorical: per feature, same length, at most k cells differ, every cell is one of that feature's own values;
    for EVERY answer stream on which the model succeeds *)
@@ -199,6 +200,13 @@ Theorem C20_noise_cat_progress : forall cum cols y p k inds st K,
   (cum = false -> forall lab, In lab (uniq y) -> 2 <= countZ lab y) ->
   noise_cat cum cols y p k inds st <> Raises.
 Proof. exact noise_cat_progress. Qed.
+
+(* fix 501d3c0: under the slices as first read the input X=[[0],[4],[2],[1]], y=[0,0,1,0], p=0.25 raises (recorded run of the
+   old code); under the repaired slices the recorded run of the current code is reproduced *)
+Theorem C20_noise_slices_prefix_refuted :
+  noise_cat false [[0; 4; 2; 1]] [0; 0; 1; 0] (1 # 4) 1 [0; 1; 3; 2] [AIdx 4 [1]; AInt 1 0] = Raises /\
+  noise_cat true [[0; 4; 2; 1]] [0; 0; 1; 0] (1 # 4) 1 [0; 1; 3; 2] [AIdx 4 [1]; AVal 2] = Ok [[0; 2; 2; 1]].
+Proof. exact noise_slices_prefix_refuted. Qed.
 
 (* missing: every cell is unchanged or the marker; exactly k markers per feature when the marker is not already present *)
 Theorem C20_noise_missing : forall cols n p k marker st out,
@@ -269,6 +277,7 @@ Print Assumptions C20_labels_ndarray_note.
 Print Assumptions C20_noise_cat.
 Print Assumptions C20_noise_cat_check_sound.
 Print Assumptions C20_noise_cat_progress.
+Print Assumptions C20_noise_slices_prefix_refuted.
 Print Assumptions C20_noise_missing.
 Print Assumptions C20_noise_missing_check_sound.
 Print Assumptions C20_noise_count.
